@@ -3,10 +3,10 @@ package main
 import (
 	"bufio"
 	"bytes"
-	"strings"
 	"errors"
 	"fmt"
 	"io"
+	"strings"
 	"unicode/utf8"
 
 	"verif/simrt"
